@@ -105,7 +105,7 @@ def fromInt (n es : Nat) (x : Int) : Nat :=
   if x = 0 then 0 else convertDyadic n es (decide (x < 0)) x.natAbs 0
 
 /-- posit::operator=(unsigned int / unsigned long / unsigned long long): value::operator=(unsigned long long)
-    (since repo commit e9a7aab `unsigned long` no longer detours through `long long`) -/
+    (since repo commit 55c92e8 `unsigned long` no longer detours through `long long`) -/
 def fromUInt (n es : Nat) (x : Nat) : Nat := fromInt n es x
 
 /-- posit::operator=(float|double) via convert_ieee754: bits of the source in format (eb, fb) -/
